@@ -120,6 +120,10 @@ def _gen_sessions(rng, station_ids, horizon, max_sessions):
         dep = rng.randint(arr + 1, horizon - 1)
         busy[st] = dep
         req = rng.choice([round(rng.uniform(0.2, 30), 3), 0.5, 2.0, 10.0])
+        if rng.random() < 0.3:
+            # requests around the DEFAULT threshold of proportion_of_demands_met (0.1 kWh): a session that is never (or hardly)
+            # charged then has its remaining demand just below / at / just above the default, and within a factor 2 of it
+            req = rng.choice([0.03, 0.05, 0.0625, 0.07, 0.099, 0.1, 0.1000001, 0.101, 0.125, 0.15, 0.19, 0.2])
         sessions.append({"session": f"s{j}", "station": st, "arrival": arr, "departure": dep,
                          "requested": req, "batt": _gen_batt(rng)})
     if not sessions:
